@@ -167,12 +167,22 @@ class SimPath(type(Path()), metaclass=_SimPathMeta):
 
 class SimZipFile(zipfile.ZipFile):
     def __init__(self, file, mode="r", *a, **kw):
-        e = _ENV
-        if e is not None:
-            e.hit("zip_open_w" if mode == "w" else "zip_open_r")
-        super().__init__(file, mode, *a, **kw)
         self._sim_target = file if isinstance(file, (str, os.PathLike)) else None
         self._sim_mode = mode
+        e = _ENV
+        if e is not None and mode != "w":
+            # (a failing open for reading: nothing has been touched yet)
+            self.fp = None
+            self._sim_mode = "closed"
+            e.hit("zip_open_r")
+            self._sim_mode = mode
+        super().__init__(file, mode, *a, **kw)
+        if e is not None and mode == "w":
+            try:
+                e.hit("zip_open_w")
+            except OSError:
+                zipfile.ZipFile.close(self)
+                raise
 
     def writestr(self, zinfo_or_arcname, data, *a, **kw):
         e = _ENV
@@ -191,9 +201,11 @@ class SimZipFile(zipfile.ZipFile):
         return super().read(name, *a, **kw)
 
     def close(self):
+        if getattr(self, "_sim_mode", None) == "closed":
+            return
         super().close()
         e = _ENV
-        if e is not None and self._sim_target is not None and self._sim_mode == "w":
+        if e is not None and getattr(self, "_sim_target", None) is not None and self._sim_mode == "w":
             e.touch(self._sim_target)
 
 
